@@ -58,3 +58,10 @@ package parameters
 //@   modifies nothing
 
 //@ type Parameters guarded_by mutex: params
+
+// Parameters.String(pos): the pos-th parameter, or an error if there are too few (trusted: the
+// sequential meaning of a read-locked getter).
+//@ func (*Parameters).String [C23] trusted
+//@   pure
+//@   ensures imp(0 <= pos, (result1 == nil) == (pos < len(p.params)))
+//@   ensures imp(result1 == nil, result == p.params[pos])
